@@ -54,10 +54,12 @@ Theorem C16_transition_orphans :
 Proof. exact C16_transition_orphans_l. Qed.
 Print Assumptions C16_transition_orphans.
 
-(* with both patches only two kinds of failing call can leave bytes: a contiguous creation whose header does not
-   fit (data block allocated first) and a chunked write meeting an empty chunk *)
+(* with both patches only these failing calls can leave bytes: a contiguous creation whose header does not
+   fit (data block allocated first), a chunked write meeting an empty chunk (fixed-size or variable-length
+   elements), and CreateDenseGroup (no link pre-check on that path) *)
 Theorem C16_patched_failing_calls : forall o,
   may_leave_bytes true true o = true ->
-  (exists p nl dup ldt rank dsize, o = OpMkContig p nl dup ldt rank dsize) \/ (exists x sizes, o = OpWrite x sizes).
+  (exists p nl dup ldt rank dsize, o = OpMkContig p nl dup ldt rank dsize) \/ (exists x sizes, o = OpWrite x sizes) \/
+  (exists x lens sizes, o = OpWriteVL x lens sizes) \/ (exists p nl dup n fit, o = OpMkDense p nl dup n fit).
 Proof. exact C16_patched_failing_calls_l. Qed.
 Print Assumptions C16_patched_failing_calls.
